@@ -22,6 +22,11 @@ K_ALIAS = ("container aliased and mutated after it was stored inside another con
 K_VIEW = ("call result attributed to one representative argument binding (view de-duplication): its source set is "
           "unexplainable at its own node, but would be explained by an equivalent sibling binding of the same variable")
 
+K_REUSE = ("value created in a sibling branch is named as a source (memoised call result / cached argument reused "
+           "across call sites): a source binding has no origin backward-reachable from its dependent's origin node")
+K_SITE = ("two distinct run-time objects are represented by one abstract instance (allocation-site abstraction): "
+          "an attribute update through one is overwritten by the (re)initialisation of the other")
+
 CAPTURE = {}
 _installed = False
 
@@ -160,6 +165,12 @@ def view_signature(ctx, var, path, leaf_shape, max_nodes=400):
       for ss in o.source_sets:
         ss = list(ss)
         todo.extend(ss)
+        for src in ss:
+          if src.origins and not any(ctx.program.is_reachable(so.where, o.where) for so in src.origins):
+            return {"found": True, "invisible": True, "reuse": True,
+                    "dependent": f"binding {b.id} at node {o.where.id} {o.where.name}",
+                    "unreachable_source": f"binding {src.id} {str(src.data)[:40]} originating at "
+                                          f"{[so.where.name for so in src.origins][:3]}"}
         if not ss or o.where.HasCombination(ss):
           continue
         for src in ss:
@@ -188,3 +199,20 @@ def _alternatives(src, depth=0):
           if _cls_name(only.data) == _cls_name(src.data):
             out.extend(_alternatives(only, depth + 1))
   return out
+
+
+def site_signature(ctx, defs, trace, gname):
+  """K_SITE: the abstract instance behind global `gname` is also the data of another global whose
+  run-time value is a different object."""
+  exitn = ctx.exitpoint
+  gshape = trace["globals"].get(gname, {})
+  if "id" not in gshape or gname not in defs:
+    return None
+  insts = [b.data for b in defs[gname].bindings if b.IsVisible(exitn)]
+  for other, osh in trace["globals"].items():
+    if other == gname or other not in defs or "id" not in osh or osh["id"] == gshape["id"]:
+      continue
+    for bb in defs[other].bindings:
+      if any(bb.data is i for i in insts):
+        return {"shares_abstract_instance_with": other, "distinct_runtime_objects": True}
+  return None
